@@ -14,7 +14,7 @@ commit and is shared with C02. This file adds the flagged family on top of it wi
   Off = the candidate repair: the selector branch is skipped (`len(newData) > 0`).
 * `inplaceAltersFlag` (C04, clause 1b) as written the in-place paths of a remote write (`copyToSelectedData`,
   `copyToAllData`, `RemoveElementFromItem` under `deleteFilteredData`) copy resp. clear the `writecheck` field like
-  any other. Off = the candidate repair `patches/C04-flag-altered-candidate.patch`: on a remote write the flag the
+  any other. Off = the candidate repair `fixes/c04/01-remote-write-keeps-changeability-flag.patch`: on a remote write the flag the
   item had is put back.
 
 * `deleteStrict` (C04b, delete path) as written `deleteFilteredData` reports failure of a remote delete as soon as
